@@ -83,7 +83,7 @@ def rows_small_scope(P, R, tier):
     import itertools as _it
     import veceval
     nan, inf = float('nan'), float('inf')
-    dom = [nan, 0.0, 1.0, inf]
+    dom = [nan, 0.0, 1.0, inf] if tier == 'thorough' else [nan, 0.0, 1.0]     # (+inf is covered by the extent-kernel check above)
     f = P.mods[BND].funcs.get('bounds_interleaved')
     if f is None:
         R.abstain('C13.a', (P.mods[BND].path, 'bounds_interleaved'), None, 'bounds_interleaved not found: per-element rows are computed by another idiom', construct='per-element rows small-scope equivalence')
@@ -95,7 +95,7 @@ def rows_small_scope(P, R, tier):
 
     def same(a, b):
         return (a != a and b != b) or a == b
-    nv = 3 if tier == 'thorough' else 2
+    nv = 2
     bad, total, undec = [], 0, None
     cuts = [(a, b) for a in range(0, 2 * nv + 1, 2) for b in range(a, 2 * nv + 1, 2)]
     for vals in _it.product(dom, repeat=2 * nv):
